@@ -25,6 +25,9 @@ def run(run, model):
                 ok, detail, node = ck.gate(ev, later, user_value=True)
                 run.check(ok, "C11.no-drop", "%s:%s" % (ck.fi.qual, kind), "the error returned by the evaluation is tested and raised; never discarded", detail, ck.loc(node), None, first_line(node.stmt))
     run.do(c09.invariant_raise_site, model, "C11.no-drop")
+    # an awaitable result is awaited (whatever earlier calls gave): what the awaited operation raises is not lost
+    from . import twins
+    run.do(twins.helper_dispatch, model, "C11.await-dispatch", "C11.sync-reject")
     # ... nor inside the evaluation helpers: an error, once created, reaches the wrapper (tested for presence)
     from . import loops
     for role, ck in gates.checkers(model).items():
